@@ -212,6 +212,47 @@ def run(ck):
             ck.violation("binary", "totals-differ", case, repr(wt if fmt == "human" else ""), repr(plain_out[:200]))
         if r["exit"] != ("1" if te else "0"):
             ck.violation("binary", "exit-status", case, "1" if te else "0", r["exit"])
+    # defective directives: the location written (JSON span, human header and underline) is the one the source gives, in characters
+    from . import c06
+    dcases = c06.defect_cases(rng, 60 if ck.tier == "quick" else 600)
+    dlines, dmeta = [], []
+    for text, rows in dcases:
+        for fmt in ("json", "human"):
+            dlines.append(dc.run_line(False, ["--diagnostic-format", fmt, "--disable-color", "--dry-run"], [], [("S", "d.slice", text)]))
+            dmeta.append((fmt, text, rows))
+    od = dc.run_all(dlines, chunk=10)
+    ck.stream("directive-defects", description="the slicec binary on files with two or more defective directives (stray #endif/#else/#elif, #define/#undef without a symbol, a region left open; blanks and comments with "
+              "characters one to four bytes long), JSON and human format: every syntax error is written with the location the source gives (start and end in JSON; row, column, underline offset and length in the human format)")
+    for (fmt, text, rows), line, oo in zip(dmeta, dlines, od):
+        ck.count("directive-defects", line, kind=fmt)
+        r = dc.parse_run(oo)
+        if r is None:
+            ck.violation("directive-defects", "crash", text, "a run", oo[:200])
+            continue
+        want = c06.defect_spans(text, rows)
+        if fmt == "json":
+            got = set()
+            for d in dc.json_diags(r["stderr"]):
+                sp = d.get("span")
+                if d.get("error_code") == "E002" and sp:
+                    got.add("%d:%d-%d:%d" % (sp["start"]["row"], sp["start"]["col"], sp["end"]["row"], sp["end"]["col"]))
+        else:
+            got, cur = set(), None
+            for l in r["stderr"].decode("utf-8", "replace").split("\n"):
+                mh = re.match(r"^ --> d\.slice:(\d+):(\d+)$", l)
+                mu = re.match(r"^\s*\|( *)(-+|/\\)$", l)
+                if mh:
+                    cur = (int(mh.group(1)), int(mh.group(2)))
+                elif mu and cur:
+                    ln = 0 if mu.group(2).startswith("/") else len(mu.group(2))
+                    # the underline starts below the character the span starts at (a tab is shown as four blanks; the '/' of a span of no width stands one column
+                    # before it) and is as long as the span
+                    shown = sum(4 if ch == "\t" else 1 for ch in text.split("\n")[cur[0] - 1][:cur[1] - 1])
+                    ok = len(mu.group(1)) == (1 + shown if ln else shown)
+                    got.add("%d:%d-%d:%d" % (cur[0], cur[1], cur[0], cur[1] + ln) if ok else "%d:%d underlined after %d blanks" % (cur[0], cur[1], len(mu.group(1))))
+                    cur = None
+        if got != want:
+            ck.violation("directive-defects", "location-written-differs-from-source", "--diagnostic-format %s\n%s" % (fmt, text), "syntax errors at %s" % sorted(want), "at %s" % sorted(got), signature={"format": fmt})
     # one note per offending field, also when the notes read the same: the source says how many there must be
     nlines, nmeta = [], []
     for _ in range(40 if ck.tier == "quick" else 400):
